@@ -192,6 +192,29 @@ def nontrivial(ops):
     return any(v >= 2 for v in ids.values())
 
 
+def fixed_programs():
+    """groups whose members give one attribute values that are equal as Python objects but differ in kind — the
+    qualified name and the URI value of one URI; 1 and 1.0 are left out (a Python set cannot hold both) — in both
+    orders, at document level and in a bundle, with a third member in between"""
+    EXU = "http://example.org/"
+    out = []
+    vals = [["qn", "ex", EXU, "v"], ["id", EXU + "v"], ["str", EXU + "v"], ["qn", "ex2", EXU, "v"]]
+    for in_bundle in (False, True):
+        for a, b in ((0, 1), (1, 0), (1, 2), (3, 1)):
+            p = [["NewDoc"], ["AddNs", ["d", "0"], "ex", EXU]]
+            c = ["d", "0"]
+            if in_bundle:
+                p.append(["NewBundle", "0", ["S", "ex:b"]])
+                c = ["b", "0", "0"]
+            p += [["NewRecord", c, "Entity", ["S", "ex:e"], [[["S", "ex:k"], vals[a]]]],
+                  ["NewRecord", c, "Agent", ["S", "ex:e"], [[["S", "ex:k"], ["int", "7"]]]],
+                  ["NewRecord", c, "Entity", ["S", "ex:e"], [[["S", "ex:k"], vals[b]], [["S", "prov:type"], vals[b]]]],
+                  ["NewRecord", c, "Entity", ["S", "ex:e"], [[["S", "prov:type"], vals[a]]]],
+                  ["Unified", "0"]]
+            out.append(p)
+    return out
+
+
 def run(tier, seed, log, model_runs=True, enlarged=False):
     return worldprop.run(PROP, tier, seed, log, model_runs, enlarged, C08Oracle, ["merge", "mixed"],
                          n_quick=140, n_thorough=2500, post=post, nontrivial=nontrivial, classify=classify,
@@ -201,6 +224,7 @@ def run(tier, seed, log, model_runs=True, enlarged=False):
                                    "conflicting formal values) in documents and bundles; after every record-changing call every "
                                    "document of a deep copy is unified and compared with an independent merge specification; "
                                    "non-trivial = some identifier used by >=2 NewRecord calls",
+                         extra_cases=fixed_programs(),
                          theorem_note="C08_* over World.unified_records")
 
 
